@@ -732,7 +732,11 @@ func c17Replies(c *Ctx, p *Prog) {
 		// the failure arm(s) of this call
 		n := 0
 		for _, a := range arms {
-			if !hasFact(a.facts, func(f Fact) bool { x, isNil, ok := FactNilCmp(f); cc, _ := callOf(unspill(x)); return ok && !isNil && cc == call.(*ssa.Call) }) {
+			if !hasFact(a.facts, func(f Fact) bool {
+				x, isNil, ok := FactNilCmp(f)
+				cc, _ := callOf(unspill(x))
+				return ok && !isNil && cc == call.(*ssa.Call)
+			}) {
 				continue
 			}
 			n++
